@@ -77,9 +77,22 @@ fn main() {
             let extra: Vec<String> = args.iter().skip(6).cloned().collect();
             let mut r = rng::Rng::new(seed);
             match family {
+                "bdd" if extra.iter().any(|x| x == "exh") => {
+                    // size = 10 * variables + length, e.g. 23: all sequences of 3 operations over 2 variables
+                    if cases > 0 {
+                        fam_bdd::gen_exh((size / 10).max(1), size % 10, &mut out)
+                    }
+                }
                 "bdd" if extra.iter().any(|x| x == "big") => fam_bdd::gen_big(&mut r, cases, size, &mut out),
                 "bdd" => fam_bdd::gen(&mut r, cases, size, &mut out),
                 "adf" => fam_adf::gen(&mut r, cases, size, &extra, &mut out),
+                "ng" if extra.iter().any(|x| x == "exh") => {
+                                        // size = 10 * variables + length, e.g. 23: sequences of <= 3 nogoods over 2 variables
+                    let (n, len) = if size >= 10 { (size / 10, size % 10) } else { (2, 3) };
+                    if cases > 0 {
+                        fam_ng::gen_exh(n, len, &mut out)
+                    }
+                }
                 "ng" => fam_ng::gen(&mut r, cases, size, &mut out),
                 "iter" => fam_iter::gen(&mut r, cases, size, &mut out),
                 "parser" => fam_parser::gen(&mut r, cases, size, &extra, &mut out),
